@@ -695,7 +695,7 @@ func g6CheckDamaged(c *Ctx, cd *g6Codec, what, d string, n0 int, truncated bool,
 func g6Run(c *Ctx, cd *g6Codec) *Violation {
 	t := c.T
 	n, adj := g6Draw(c, cd.directed)
-	c.Declare("undirected_graph_with_self_loops", "hand_written_long_header", "node_ids_not_0_to_n-1", "negative_ids_with_largest_n-1", "header_4_byte_form", "damaged_string_still_valid", "damaged_string_invalid", "noncanonical_accepted", "substitution_exhaustive", "substitution_sampled")
+	c.Declare("undirected_graph_with_self_loops", "hand_written_long_header", "longer_header_form_with_data", "node_ids_not_0_to_n-1", "negative_ids_with_largest_n-1", "header_4_byte_form", "damaged_string_still_valid", "damaged_string_invalid", "noncanonical_accepted", "substitution_exhaustive", "substitution_sampled")
 	// node IDs of the graph handed to Encode: 0..n-1, or any increasing
 	// sequence (negative, with gaps, far from zero)
 	ids := make([]int64, n)
@@ -809,6 +809,41 @@ func g6Run(c *Ctx, cd *g6Codec) *Violation {
 			what := fmt.Sprintf("hand-written long-form header %q cut to %d bytes: ", hdr, kk)
 			if v := c.Guard("Graph/header-form", func() string { return what + g6Show(d) }, func() *Violation {
 				c.Case("eof@k", true, hashString(hdr), uint64(kk), 77)
+				return g6CheckDamaged(c, cd, what, d, n, false, kk, 0)
+			}); v != nil {
+				return v
+			}
+		}
+	}
+	// the same data behind a longer order form than Encode uses (the decoder
+	// reads all three forms for any order), complete and cut at every length
+	if len(s) > 0 && !(len(s) >= 2 && s[:2] == "~~") {
+		prefix := ""
+		if cd.directed {
+			prefix = "&"
+		}
+		body := s[len(prefix)+1:]
+		if n >= 63 {
+			body = s[len(prefix)+4:]
+		}
+		sixes := func(k int) string {
+			b := make([]byte, k)
+			for i := range b {
+				b[i] = byte(63 + (uint64(n)>>(6*uint(k-1-i)))&63)
+			}
+			return string(b)
+		}
+		forms := []string{prefix + "~~" + sixes(6) + body}
+		if n < 63 {
+			forms = append(forms, prefix+"~"+sixes(3)+body)
+		}
+		full := forms[t.Choose(simrt.KWorkload, len(forms))]
+		c.Probe("longer_header_form_with_data", 1)
+		for k := 0; k <= len(full); k++ {
+			d, kk := full[:k], k
+			what := fmt.Sprintf("encoding rewritten with a %d-byte order form (%d bytes) cut to %d: ", len(full)-len(body)-len(prefix), len(full), kk)
+			if v := c.Guard("Graph/header-form", func() string { return what + g6Show(d) }, func() *Violation {
+				c.Case("eof@k", true, hashString(full), uint64(kk), 78)
 				return g6CheckDamaged(c, cd, what, d, n, false, kk, 0)
 			}); v != nil {
 				return v
